@@ -64,6 +64,10 @@ Inductive case :=
 | CV4Tx (tag : N) (t : tx4) (o : obs4)
 | CV4Mut (field : N) (t t' : tx4) (o o' : obs4)
 | CVec (zip : N) (expected observed : bytes)    (* a published ZIP 143/243/244 vector value *)
+(* the txid of the transaction parsed back from its serialisation through a reader that returns at
+   most [k] bytes per call ([k] = 0: unfragmented); [expected] = SHA-256d of the bytes before v5,
+   the txid of the built transaction from v5 on *)
+| CReparse (ver k : N) (expected observed : bytes)
 (* the implementation panicked while computing txid / auth commitment / a signature hash of a
    transaction it accepted through from_parts: always a property failure *)
 | CPanicTx (t : tx)
@@ -171,6 +175,7 @@ Definition prop_case (c : case) : bool :=
       (* signature hashes: equal exactly when what ZIP 143/243 define them to cover is equal *)
       && mut4_sigs_ok t t' o o'
   | CVec _ e o => bytes_eqb e o
+  | CReparse _ _ e o => bytes_eqb e o
   | CPanicTx _ | CPanicTx4 _ | CPanicOther => false
   end.
 
@@ -243,6 +248,7 @@ Definition tag_case (c : case) : N :=
   | CV4Tx tag t _ => 310 + 10 * tag + (if is_v4 (t4_ver t) then 1 else 0)
   | CV4Mut f t _ _ _ => 400 + (if is_v4 (t4_ver t) then 100 else 0) + f
   | CVec z _ _ => 1000 + z
+  | CReparse v k _ _ => 1100 + 10 * v + (if k =? 0 then 0 else if k <? 32 then 1 else if k <? 64 then 2 else 3)
   | CPanicTx _ => 2000
   | CPanicTx4 _ => 2001
   | CPanicOther => 2002
